@@ -8,7 +8,7 @@ ID = "C04"
 LEVEL = "exploration"
 RULE = ("five case families: (0) SIZE boundaries of the file format - string literals of 250 ... 70 000 bytes around every power of two, functions capturing up to 300 variables, files with up to 1 200 functions, names of 1 000 characters, class and method names (function labels) of up to 300 characters, jumps over 12 000 statements, literals with 1 000 elements, 250 parameters - each with a computed expected output; (0b) REPEATED LABELS - same-named classes in two function bodies, in the if and the else block, at module level and inside a function, same-named inner functions and methods, with the first, the second or both in use (differential only); (1) every .ms file of the repository's example corpus as entry point of a copy of its directory; "
         "(2) programs from the generators of C01, C07, C08, C12, C13, C15 and the two-module failing programs of C17 "
-        "(Hypothesis); (3) EXHAUSTIVELY all string literals up to length 3 (quick: + a seeded sample of length 4; thorough: all "
+        "(Hypothesis); (3) 80 string VALUES that read like tokens of another lexical class (numbers in every spelling, booleans, keywords, instruction / register / label names, paths, comment openers); every ASCII character (0-127) and seven further code points alone, doubled, embedded and next to a quote / backslash / space; EXHAUSTIVELY all string literals up to length 3 (quick: + a seeded sample of length 4; thorough: all "
         "of length 4) over the alphabet {quote, backslash, space, TAB, LF, CR, n, r, t, a, e-acute, emoji, NBSP, U+3000, VT, NUL} in escaped and raw "
         "source spelling, each placed as print operand, concatenation operand and map key, 150 per program. Oracle: stdout and "
         "exit class of `mscript run x.ms -q` equal those of `mscript compile x.ms --quick && mscript execute x.mmm`; for the "
@@ -178,9 +178,28 @@ def all_strings(maxlen):
             yield "".join(t)
 
 
+def ascii_strings():
+    """every ASCII character (and a few more code points) alone, doubled, embedded between letters, next to a quote / a backslash:
+    the alphabet of the exhaustive part is a choice, this family is not"""
+    chars = [chr(c) for c in range(0, 128)] + ["\u0085", "\u00a0", "\u2028", "\u2029", "\ufeff", "\U0001f600", "\u0301"]
+    out = []
+    for c in chars:
+        out += [c, c + c, "a" + c + "b", c + "\"", "\"" + c, c + "\\" + c, " " + c, c + " "]
+    return out
+
+
+def lexical_strings():
+    """string VALUES that read like tokens of another lexical class - numbers in every spelling, booleans, nil, keywords,
+    instruction names, register and label names, module paths: an argument is data, whatever it looks like"""
+    return ["0", "7", "-7", "+7", "007", "1000", "1_000", "12_", "2024_01_15", "0x1F", "0xff", "0XFF", "0x", "0b101", "0b", "0b102", "B12", "B0x10", "1.5", "1.", ".5", "1e5", "1f", "3F",
+            "inf", "NaN", "true", "false", "nil", "None", "null", "self", "Self", "print", "return", "fn", "class", "import", "e", "f", "f __module__", "e\u0000",
+            "make_str", "make_int \"5\"", "ret", "void", "done", "jmp 3", "#1", "#0", "L#1", "__module__", "__fn0", "main.mmm#__module__", "./lib.mmm", "a#b", "K::m", "K::$constructor",
+            "int", "str", "[int...]", "map[str, int]", "int?", "->", "...", "//", "/*", "#", "# comment", "; remark", "\\n", "\\0", "\\\\", "%s", "{}", "{0}", "$x", "${x}"]
+
+
 def string_cases(tier, seed):
     import random
-    strings = list(all_strings(3))
+    strings = list(all_strings(3)) + ascii_strings() + lexical_strings()
     four = ["".join(t) for t in itertools.product(SIGMA, repeat=4)]
     if tier == "quick":
         four = random.Random(seed).sample(four, 3000)
@@ -223,6 +242,9 @@ def size_cases():
         src = ("class %s {\n\tv: int\n\tconstructor(self, v: int) {\n\t\tself.v = v\n\t}\n\tfn %s(self, d: int) -> int {\n\t\treturn self.v + d\n\t}\n"
                "\tfn unused_%s(self) -> int {\n\t\treturn 0\n\t}\n}\no = %s(4)\nprint o.%s(3)\n") % (cname, mname, mname, cname, mname)
         add("class-name-%d-method-name-%d" % (cn, mn), src, "7\n")
+    for n in (200, 2000):
+        # one expression with n operands: the compiler recurses once per operand, under `run` as well as under `compile`
+        add("operator-chain-%d" % n, "print " + " + ".join(["1"] * n) + "\nprint \"s\" + " + " + ".join(["\"ab\""] * (n // 4)) + "\n", "%d\ns%s\n" % (n, "ab" * (n // 4)))
     for n in (40, 130, 300, 3000, 12000):
         # an if body / a loop body of n statements: jump offsets beyond 127, 255, 32767
         body = "\tt = t + 1\n" * n
